@@ -204,6 +204,7 @@ pub struct CodegenContext {
     emit_depth: usize,
     expanding_macros: Vec<(Identifier, Span)>,
     loop_iterations: usize,
+    recursive_macro_expansions: usize,
     /// The banks and segments that were defined in the current pass (a second definition replaces the first,
     /// dropping whatever was emitted to it)
     defined_in_pass: std::collections::HashSet<(bool, Identifier)>,
@@ -266,6 +267,7 @@ impl CodegenContext {
             emit_depth: 0,
             expanding_macros: vec![],
             loop_iterations: 0,
+            recursive_macro_expansions: 0,
             defined_in_pass: Default::default(),
             test_elements: vec![],
             active_test_entry: None,
@@ -355,6 +357,7 @@ impl CodegenContext {
         self.pass_idx += 1;
         self.next_macro_scope_id = 0;
         self.loop_iterations = 0;
+        self.recursive_macro_expansions = 0;
         self.defined_in_pass.clear();
 
         log::trace!("\n* NEXT PASS ({}) *", self.pass_idx);
@@ -1245,6 +1248,22 @@ impl CodegenContext {
                             ))
                             .with_labels(vec![name.span.to_label()])
                             .into());
+                    }
+
+                    // The depth does not bound a macro that invokes itself more than once per expansion (2^64 expansions).
+                    // A recursion never ends well (see above), so there is no point in expanding it again and again
+                    const MAX_RECURSIVE_EXPANSIONS: usize = 256;
+                    if self.expanding_macros.iter().any(|(n, _)| n == &name.data) {
+                        self.recursive_macro_expansions += 1;
+                        if self.recursive_macro_expansions > MAX_RECURSIVE_EXPANSIONS {
+                            return Err(Diagnostic::error()
+                                .with_message(format!(
+                                    "macro '{}' is expanded recursively more than {} times",
+                                    name.data, MAX_RECURSIVE_EXPANSIONS
+                                ))
+                                .with_labels(vec![name.span.to_label()])
+                                .into());
+                        }
                     }
 
                     let macro_scope =
